@@ -60,7 +60,10 @@ func Merge[T any](out chan<- T, in ...<-chan T) {
 		}
 		chosen, item, ok := reflect.Select(selectCases)
 		if ok {
-			out <- item.Interface().(T)
+			// A nil value of an interface type T comes back as an untyped nil, which a plain
+			// assertion to T rejects.
+			v, _ := item.Interface().(T)
+			out <- v
 		} else {
 			selectCases = xslices.RemoveUnordered(selectCases, chosen, 1)
 		}
